@@ -307,6 +307,12 @@ pub fn finish(mut r: Report) -> i32 {
     coverage.insert("violation_signatures".into(), json!(shown));
     coverage.insert("violation_signatures_total".into(), json!(n_sigs));
     for (k, v) in &r.extra { coverage.insert(k.clone(), v.clone()); }
+    // keep the evidence file small whatever the tree did: any single field above 256 KiB is replaced by a note
+    let big: Vec<String> = coverage.iter().filter(|(_, v)| serde_json::to_string(v).map(|s| s.len()).unwrap_or(0) > 256 * 1024).map(|(k, _)| k.clone()).collect();
+    for k in big {
+        let len = serde_json::to_string(&coverage[&k]).map(|s| s.len()).unwrap_or(0);
+        coverage.insert(k.clone(), json!(format!("<omitted: {len} bytes; see the run's output and replay files>")));
+    }
     let doc = json!({
         "property_id": r.id,
         "tier": r.tier,
